@@ -1,10 +1,60 @@
-"""C01 — no worker is ever oversubscribed during a simulation."""
+"""C01 — no worker is ever oversubscribed during a simulation.
+
+Two halves.  Simulator half: whole simulations (S-sim) under the machine of Model/Sim.v and the monitor of simmon.
+Worker/pool half: the refusal that keeps a worker within its capacity lives in Worker.place_task / WorkerPool.place_task;
+the theorems are C04's (C04_worker_demand_le_capacity, C04_pool_no_oversubscription, for ALL operation histories), so this
+check re-establishes them and their tie on every run: the S-ledger differential on worker/pool histories (refused requests
+retried, batches, profiles, copies) and the Gallina monitors M-worker (demand of the residents <= configured capacity,
+every resident holds exactly its allocation) and M-pool (a task is resident on one worker only) on the implementation's
+own observations after every operation."""
+import core
 import simcheck
 import simmon
 
 TRUSTED = simcheck.TRUSTED_SIM
 
 
+def worker_half(ctx):
+    from props import c04 as L
+    ctx.fingerprint(L.FILES)
+    ctx.build("C04", deps=["Model/Worker.v"])
+    quick = ctx.tier == "quick"
+    n = 150 if quick else 1500
+    cases = [L.gen_case(ctx.rng, 10 if quick else 14, kinds=("worker", "pool")) for _ in range(n)]
+    runs = core.run_impl("ledger.py", {"cases": cases})["runs"]
+    impl = [r["obs"] for r in runs]
+    ctx.rules.append("C01 worker half: S-ledger histories restricted to Worker and WorkerPool objects (place plain/batch, remove, "
+                     "load, evict, step, copies; refused requests are retried), generated as for C04")
+    nt = 0
+    for o in impl:
+        codes = [x[0] for x in o[1:]]
+        if any(x > 0 or x == -1 for x in codes) and any(x == 0 for x in codes):
+            nt += 1
+    ctx.cov["distinct_nontrivial"] += nt
+    ctx.cov.setdefault("input_distribution", {})["worker_half"] = {"histories": n, "with_refusal_and_success": nt}
+    try:
+        mcases = [(L.g_case(c), o, c) for c, o in zip(cases, impl)]
+        mism = ctx.model_stream("S-ledger(C01)", L.HDR, "world_case", "world_obs", mcases, shard=60)
+        for idx, mv in mism[:3]:
+            ctx.violation("ledger%d" % idx, {"stream": "S-ledger", "case": cases[idx], "implementation": impl[idx], "model": mv,
+                                              "what": "Worker/WorkerPool observations differ from the model the capacity theorems are about"})
+    except core.ModelEvalError as e:
+        ctx.broken.append({"kind": "correspondence", "name": "S-ledger(C01)", "detail": str(e)[-600:]})
+    mon = L.Mon()
+    stats = {"inside_hypotheses": 0, "outside_hypotheses": 0, "tainted_objects": 0, "objects": 0}
+    for ci, (c, r) in enumerate(zip(cases, runs)):
+        L.analyse(ci, c, r, mon, stats)
+    for k in list(mon.items):
+        if k not in ("M-worker", "M-pool"):
+            mon.items[k] = []
+    try:
+        L.run_monitors(ctx, cases, mon, "(C01)")
+    except core.ModelEvalError as e:
+        ctx.broken.append({"kind": "monitor", "name": "C01 worker-half monitors", "detail": str(e)[-600:]})
+    ctx.extra_assumptions += list(L.TRUSTED)
+
+
 def run(ctx):
     simcheck.run_sim_property(ctx, ["C01"], lambda r, w: simmon.mon_c01(r, w),
                               "a worker's resident tasks demand more than its capacity, or the ledger disagrees with the sum of requests")
+    worker_half(ctx)
